@@ -23,14 +23,6 @@ Core Lean only (imported by the oracle executable).
 -/
 namespace MV.Model.LFQueue
 
-/-- canonical text of `Push` (see `harness/suites/c15/facts.go` for the printer) -/
-def pushProg : String :=
-  "node=new(value); loop{ tail=load(q.tail); next=load(tail.next); if(tail==load(q.tail)){ if(next==nil){ if(cas(tail.next,next,node)){ cas(q.tail,tail,node); return } } else{ cas(q.tail,tail,next) } } }"
-
-/-- canonical text of `Pop` -/
-def popProg : String :=
-  "loop{ head=load(q.head); tail=load(q.tail); next=load(head.next); if(head==load(q.head)){ if(head==tail){ if(next==nil){ return nil }; cas(q.tail,tail,next) } else{ value=next.value; if(cas(q.head,head,next)){ return value } } } }"
-
 inductive Op where
   | push (v : Int) | pop
   deriving Repr, DecidableEq
@@ -82,6 +74,37 @@ structure St where
   g : Glob
   ths : List Thread
   deriving Repr, DecidableEq
+
+/-- the atomic operation a thread at `pc` executes next, as it is printed in the program text -/
+def PC.instr : PC → String
+  | .puLoadTail _ => "load(q.tail)"
+  | .puLoadNext _ _ => "load(tail.next)"
+  | .puRecheck _ _ _ => "load(q.tail)"
+  | .puCasNext _ _ => "cas(tail.next,next,node)"
+  | .puSwing _ _ => "cas(q.tail,tail,node)"
+  | .puHelp _ _ _ => "cas(q.tail,tail,next)"
+  | .poLoadHead => "load(q.head)"
+  | .poLoadTail _ => "load(q.tail)"
+  | .poLoadNext _ _ => "load(head.next)"
+  | .poRecheck _ _ _ _ => "load(q.head)"
+  | .poHelp _ _ => "cas(q.tail,tail,next)"
+  | .poCasHead _ _ _ => "cas(q.head,head,next)"
+  | .done => ""
+  | .crashed => ""
+
+/-- canonical text of `Push` (see `harness/suites/c15/facts.go` for the printer); the atomic
+operations are spliced in from `PC.instr`, in program order: the text that is compared with the Go
+source names, one by one, the instruction every program counter of `trans` stands for. -/
+def pushProg : String :=
+  "node=new(value); loop{ tail=" ++ (PC.puLoadTail 0).instr ++ "; next=" ++ (PC.puLoadNext 0 0).instr ++
+  "; if(tail==" ++ (PC.puRecheck 0 0 none).instr ++ "){ if(next==nil){ if(" ++ (PC.puCasNext 0 0).instr ++
+  "){ " ++ (PC.puSwing 0 0).instr ++ "; return } } else{ " ++ (PC.puHelp 0 0 0).instr ++ " } } }"
+
+/-- canonical text of `Pop` -/
+def popProg : String :=
+  "loop{ head=" ++ PC.poLoadHead.instr ++ "; tail=" ++ (PC.poLoadTail 0).instr ++ "; next=" ++ (PC.poLoadNext 0 0).instr ++
+  "; if(head==" ++ (PC.poRecheck 0 0 none false).instr ++ "){ if(head==tail){ if(next==nil){ return nil }; " ++
+  (PC.poHelp 0 0).instr ++ " } else{ value=next.value; if(" ++ (PC.poCasHead 0 0 0).instr ++ "){ return value } } } }"
 
 /-- `n.next` -/
 def next (g : Glob) (n : Nat) : Option Nat := if n + 1 < g.all.length then some (n + 1) else none
